@@ -173,11 +173,28 @@ class Executor:
             ev = list(s.events)
             if end == 'return':
                 ev.append({'kind': 'ret', 'value': ret, 'body': body.nname, 'depth': 0})
+            self._attribute(ev)
             out.append(Path(ev, end, ret))
             self.npaths += 1
             if self.npaths > self.max_paths:
                 raise PathLimit('%s: more than %d paths' % (body.nname, self.max_paths))
         return out
+
+    @staticmethod
+    def _attribute(events):
+        """Give every event the top-level site it belongs to: 'tblock' = block (in the analysed function) of the
+        outermost call through which it was reached by inlining, or its own block at depth 0."""
+        stack = []
+        for e in events:
+            k = e['kind']
+            if k == 'leave':
+                if stack:
+                    stack.pop()
+                continue
+            if 'tblock' not in e:
+                e['tblock'] = stack[0] if stack else e.get('block')
+            if k == 'enter':
+                stack.append(e['tblock'] if stack else e.get('block'))
 
     def _new_frame(self):
         self.next_fid += 1
